@@ -370,6 +370,36 @@ func c09Scenario(w *vfWorld, r *vfkit.R, idx int) {
 			}
 		}
 	}
+	if kind == "p2p" {
+		// a participant unsubscribes while the other one keeps the topic loaded, then sends marks for messages it
+		// has not acknowledged yet: the notes come from a user who is not subscribed any more and must have no effect
+		var pa, pb *pubActor
+		for _, a := range sc.actors {
+			switch a.role {
+			case "peerA":
+				pa = a
+			case "peerB":
+				pb = a
+			}
+		}
+		if pa != nil && pb != nil {
+			pb.cs[0].sub(sc.nameFor(pb), nil)
+			sc.reqX(pb, pb.cs[0], "pub", map[string]any{"topic": sc.nameFor(pb), "content": "last one"})
+			w.e.vfQuiesce()
+			sc.c09CheckRows(st, "publish", "publish")
+			pa.cs[0].leave(sc.nameFor(pa), true)
+			w.e.vfQuiesce()
+			sc.log("peerA unsubscribed while peerB stays attached")
+			sc.c09CheckRows(st, "unsubscribe", "mutate")
+			_, _, seqNow := sc.c09Rows()
+			r.Hit("p2p_note_after_unsubscribe")
+			for _, what := range []string{"recv", "read", "kp"} {
+				sc.noteStepFixed = &[2]any{what, seqNow}
+				sc.noteStep(st, pa, pa.cs[0], -2)
+				sc.noteStepFixed = nil
+			}
+		}
+	}
 	for _, a := range sc.actors {
 		sc.c09Reported(a, a.cs[0])
 	}
